@@ -100,6 +100,15 @@ func init() {
 	extraLetters["Mi"] = func(w *World, arg string) bool { return w.migrateLetter(arg) }
 	extraLetters["Bk"] = func(w *World, arg string) bool { return w.backupLetter(arg) }
 	extraLetters["F"] = func(w *World, arg string) bool { return w.firstCallLetter(arg) }
+	// X:<letter>;<letter>;... applies several letters as one (compound leaf letters)
+	extraLetters["X"] = func(w *World, arg string) bool {
+		for _, l := range strings.Split(arg, ";") {
+			if !w.Apply(l) {
+				return false
+			}
+		}
+		return true
+	}
 }
 
 // compactLetter: arg "<mode>,<cutoff µs>", mode s|m|o
